@@ -70,7 +70,7 @@ def _unrepaired_model_agrees(lines, answers):
         f = ln.split('\t')
         if len(f) >= 3 and f[1] == 'set_max_nodes':
             (capped.discard if f[2] == 'max' else capped.add)(f[0])
-        if len(f) >= 2 and f[0] in capped and f[1] in ('foa', 'ite', 'var', 'apply', 'quantify', 'cofactor', 'let_b'):
+        if len(f) >= 2 and f[0] in capped and f[1] in ('foa', 'ite', 'var', 'apply', 'quantify', 'cofactor', 'let_b', 'compose', 'let_r', 'rename', 'let_n'):
             f[1] += '_old'
         out_lines.append('\t'.join(f))
     try:
@@ -535,6 +535,7 @@ def op_scenario(ctx, k):
     s, b = h.s, h.b
     from funcs import Space
     sp = Space(h.names)
+    pre_unmodelled = False
     try:
         for v in h.names:
             a = h.call(('var', v))
@@ -542,6 +543,8 @@ def op_scenario(ctx, k):
                 h.hold(s.val(a))
         for _ in range(rng.randint(3, 9)):
             c, _t = _op_call(h, sp, TT(b, h.names), rng.choice(['apply2', 'apply3', 'apply2', None]))
+            if c[0] == 'add_expr':
+                pre_unmodelled = True
             r = s.val(h.call(c))
             if r is not None and rng.random() < 0.5:
                 h.hold(r)
@@ -563,6 +566,7 @@ def op_scenario(ctx, k):
         # most scenarios insist on ONE kind of call until it is refused (else the calls that always
         # need a node — `cube`, `var` — would take every refusal)
         focus = OP_KINDS[k % len(OP_KINDS)] if rng.random() < 0.8 else None
+        unmodelled = pre_unmodelled
         for _ in range(20):
             tt = TT(b, h.names)
             if target is not None:
@@ -574,6 +578,8 @@ def op_scenario(ctx, k):
             held_tt = {x: TT(cb, h.names).of(x) for x, n_ in led.items() if n_ > 0}
             last_len, old_succ, before = cb._last_len, dict(cb._succ), impl.dump_state(cb)
             del FULL_SITES[:]
+            if c[0] in ('cube', 'add_expr'):
+                unmodelled = True
             a = s.op(0, *c)
             ctx.evaluations += 1
             if a != 'err RuntimeError':
@@ -626,6 +632,13 @@ def op_scenario(ctx, k):
                 ctx.violation('manager damaged after going on from a full manager', dict(
                     lines=list(s.lines), problems=bad[:5], tags=dict(call='full:after')))
         ctx.case(('cap-op', len(h.names), refused and refused[0][0], len(s.lines)))
+        if not unmodelled:
+            # every call of this scenario has a twin with capacity: replay it on `ddvcap` too
+            s.state(0)
+            if target is not None:
+                s.state(1)
+            ctx.add_session(s, SECTIONS_L3, 'C17 capacity (operations)')
+            ctx.count('cap-op:replayed-on-model')
     finally:
         s.close()
 
